@@ -9,6 +9,7 @@ import (
 	"fmt"
 	"os"
 	"sort"
+	"strings"
 	"time"
 
 	"verif/mc"
@@ -38,7 +39,9 @@ type Ctx struct {
 	Out      *Output
 	seq      int
 	// replay mode
-	replay *mc.Violation
+	replay  *mc.Violation
+	only    string
+	verbose bool
 }
 
 func (c *Ctx) Thorough() bool { return c.Tier == "thorough" }
@@ -74,6 +77,9 @@ func (c *Ctx) Explore(sc *mc.Scenario, opt mc.Options) {
 		}
 		return
 	}
+	if c.only != "" && !strings.Contains(sc.Name+" "+sc.Params, c.only) {
+		return
+	}
 	if !c.Mine() || c.expired() {
 		return
 	}
@@ -90,6 +96,9 @@ func (c *Ctx) ExploreBig(sc *mc.Scenario, opt mc.Options) {
 		}
 		return
 	}
+	if c.only != "" && !strings.Contains(sc.Name+" "+sc.Params, c.only) {
+		return
+	}
 	if c.expired() {
 		return
 	}
@@ -100,6 +109,10 @@ func (c *Ctx) ExploreBig(sc *mc.Scenario, opt mc.Options) {
 }
 
 func (c *Ctx) addStats(st *mc.Stats) {
+	if c.verbose {
+		fmt.Fprintf(os.Stderr, "%-28s %-80.80s exec=%-8d steps/exec=%-4d hb=%-8d prunes=%-8d outcomes=%-4d exh=%v viol=%v %.1fs\n", st.Scenario, st.Params,
+			st.Executions, st.Steps/max64(1, st.Executions), st.CacheStates, st.CachePrunes, st.Outcomes, st.Exhaustive, st.SigCounts, st.WallS)
+	}
 	if !st.Exhaustive && !c.Deadline.IsZero() && time.Now().After(c.Deadline) {
 		c.Out.TimedOut = true
 	}
@@ -146,6 +159,13 @@ func doReplay(sc *mc.Scenario, v *mc.Violation) {
 	os.Exit(0)
 }
 
+func max64(a, b int64) int64 {
+	if a > b {
+		return a
+	}
+	return b
+}
+
 var props = map[string]func(c *Ctx){}
 
 func main() {
@@ -157,6 +177,8 @@ func main() {
 	budget := flag.Duration("budget", 0, "internal deadline (0 = none)")
 	replay := flag.String("replay", "", "replay file")
 	list := flag.Bool("list", false, "list properties")
+	only := flag.String("only", "", "run only scenarios whose name+params contain this")
+	verbose := flag.Bool("v", false, "print per-scenario statistics")
 	flag.Parse()
 	if *list {
 		var ks []string
@@ -174,6 +196,7 @@ func main() {
 	if *budget > 0 {
 		c.Deadline = start.Add(*budget)
 	}
+	c.only, c.verbose = *only, *verbose
 	if *replay != "" {
 		b, err := os.ReadFile(*replay)
 		if err != nil {
